@@ -1,3 +1,72 @@
-(* C08 — theorems (placeholder, filled in below) *)
+(* C08 — theorems.  Every name here is checked with Print Assumptions (no axioms). *)
 From GixV.Base Require Import Bytes Outcome.
-From GixV.C08 Require Import Model Spec.
+From GixV.C08 Require Import Model Spec ProofsLru.
+Local Open Scope N_scope.
+
+(* StaticLinkedList<SIZE>::new(limit) followed by ANY sequence of put/get, debug or release build:
+   no step panics (the usize subtractions never underflow), mem_used is exactly the sum of the
+   capacities of all vectors held (entries + free list), it exceeds the limit by less than the minimal
+   capacity of a vector (8), and at most SIZE entries are held. *)
+Theorem static_lru_mem_invariant : forall bd size limit ops, 1 <= size ->
+  exists s, run_ops bd (slru_new size limit) ops = Ok s /\
+            s_used s = caps (s_inner s) + s_fcap s /\
+            s_used s <= s_limit s + 7 /\
+            count (s_inner s) <= size.
+Proof.
+  intros bd size limit ops Hs.
+  destruct (static_lru_mem_invariant_all bd size limit ops Hs) as (s & E & I).
+  exists s. split; [exact E|]. destruct I. repeat split; try assumption.
+  assert (Z : forall ops s0 s1, run_ops bd s0 ops = Ok s1 -> sinv s0 -> s_size s1 = s_size s0).
+  { clear. induction ops as [|[k d kind csz|k] r IH]; intros s0 s1 H I0; cbn [run_ops] in H.
+    - injection H as <-. reflexivity.
+    - destruct (slru_put_inv (fun _ _ => True) bd s0 k d kind csz I0) as (s' & E' & I' & _ & _ & S');
+        [apply Forall_forall; intros; exact Logic.I | exact Logic.I |].
+      rewrite E' in H. cbn [obind] in H. rewrite (IH _ _ H I'). exact S'.
+    - destruct (slru_get s0 k) as [s' h] eqn:G. cbn [fst] in H.
+      destruct (slru_get_inv (fun _ _ => True) s0 k s' h I0) as (I' & _ & _ & _ & S');
+        [apply Forall_forall; intros; exact Logic.I | exact G |].
+      rewrite (IH _ _ H I'). exact S'. }
+  rewrite (Z _ _ _ E (sinv_new size limit Hs)) in si_count. exact si_count.
+Qed.
+
+(* the cache contract, for each of the delta caches behind `dyn DecodeEntry` (Never, StaticLinkedList,
+   MemoryCappedHashmap) and any predicate P on (key, value): if every value put satisfied P for its
+   key, whatever get returns satisfies P for the requested key — and put never panics. *)
+Theorem delta_caches_get_contract : forall P c k c' r,
+  cache_inv P c -> cache_get c k = (c', r) -> cache_inv P c' /\ (forall h, r = Some h -> P k h).
+Proof. exact cache_get_contract. Qed.
+
+Theorem delta_caches_put_contract : forall P bd c k d kind csz,
+  cache_inv P c -> P k (kind, csz, d) ->
+  exists c', cache_put bd c k d kind csz = Ok c' /\ cache_inv P c'.
+Proof. exact cache_put_contract. Qed.
+
+(* the object cache (MemoryCappedHashmap over clru, weight = len + 52) obeys the same contract *)
+Theorem object_cache_contract : forall P m k d kind m' r,
+  entries_ok P (m_list m) ->
+  (P k (kind, 0, d) -> entries_ok P (m_list (mcache_put m k d kind 0))) /\
+  (mcache_get m k = (m', r) -> entries_ok P (m_list m') /\ (forall h, r = Some h -> P k h)).
+Proof.
+  intros P m k d kind m' r F. split.
+  - intros Hk. apply mcache_put_inv; assumption.
+  - intros G. eapply mcache_get_inv; eassumption.
+Qed.
+
+(* non-vacuity: the witness of the defect fixed in /repo (ten 1-byte puts, one 20-byte put, two
+   1-byte puts, limit 100) now runs without panic and ends with exact accounting *)
+Example static_lru_witness :
+  let one := Put 0 [x00] 3 1 in
+  let big := Put 0 (repeat x00 20) 3 1 in
+  match run_ops Debug (slru_new 10 100) (repeat one 10 ++ [big; one; one]) with
+  | Ok s => s_used s = 100 /\ count (s_inner s) = 10
+  | _ => False
+  end.
+Proof. vm_compute. split; reflexivity. Qed.
+
+(* tiny limits: the minimal capacity of a vector (8) exceeds the limit 1, mem_used = 8 *)
+Example static_lru_tiny_limit :
+  match run_ops Debug (slru_new 1 1) [Put 0 [x07] 3 1; Put 1 [x08] 3 1; Get 1] with
+  | Ok s => s_used s = 8
+  | _ => False
+  end.
+Proof. vm_compute. reflexivity. Qed.
